@@ -2,6 +2,8 @@ package transport
 
 import (
 	"context"
+	"encoding/binary"
+	"errors"
 	"net"
 	"sync"
 	"time"
@@ -143,14 +145,34 @@ func (t *ReuseConnTransport) exchangeConn(payload []byte, c *reusableConn) (*dns
 	if t.testRespTimeout > 0 {
 		respTimeout = t.testRespTimeout
 	}
+	// Queries are sent with a per-connection ID. payload is owned by this
+	// call. (See exchangeConnCtx.)
+	origID := binary.BigEndian.Uint16(payload[2:])
+	qid := c.nextQid
+	c.nextQid++
+	binary.BigEndian.PutUint16(payload[2:], qid)
+
 	c.c.SetDeadline(time.Now().Add(respTimeout))
 	_, err := c.c.Write(payload)
 	if err != nil {
 		return nil, err
 	}
 	r, _, err := dnsutils.ReadMsgFromTCP(c.c)
-	return r, err
+	if err != nil {
+		return nil, err
+	}
+	if r.Header.ID != qid {
+		// Not the reply to this query. e.g. The server sent an extra frame
+		// earlier. The stream is out of sync. The error makes the caller
+		// close the connection instead of reusing it.
+		dnsmsg.ReleaseMsg(r)
+		return nil, errUnexpectedRespID
+	}
+	r.Header.ID = origID
+	return r, nil
 }
+
+var errUnexpectedRespID = errors.New("response has an unexpected id")
 
 func (t *ReuseConnTransport) releaseConn(rc *reusableConn, err error) {
 	if err != nil {
@@ -270,6 +292,10 @@ func (t *ReuseConnTransport) Close() error {
 type reusableConn struct {
 	c           net.Conn
 	idleTimeout time.Duration
+
+	// ID of the next query. Only accessed by the (only) call that is
+	// serving the connection.
+	nextQid uint16
 
 	m         sync.Mutex
 	serving   bool
